@@ -222,7 +222,20 @@ def run_check(prop, tier, seed, jobs=None):
     try:
         Dm = importlib.import_module("drivers." + prop)
         if hasattr(Dm, "bounded"):
-            bounded_res = Dm.bounded(tier, seed)
+            try:
+                bounded_res = Dm.bounded(tier, seed)
+            except Exception as e:
+                # an exception raised *inside the library* while the driver exercised it is a failure of the code under
+                # test (natively reproduced); anything else is a defect of the driver -> checker crash
+                tb = traceback.extract_tb(e.__traceback__)
+                root = os.path.realpath(os.environ.get("QUCUMBER_REPO", "/repo"))
+                if tb and os.path.realpath(tb[-1].filename).startswith(root + os.sep):
+                    where = "%s:%d" % (os.path.relpath(os.path.realpath(tb[-1].filename), root), tb[-1].lineno)
+                    bounded_res = {"driver": "drivers/%s" % prop, "label": "bounded", "evaluations": 1, "failures": 1,
+                                   "bound": "the driver's first scenario that made the library raise",
+                                   "first_failures": [("the library raised %r at %s" % (e, where), None)]}
+                else:
+                    crashes.append({"cfg": "bounded driver", "error": "".join(traceback.format_exception(type(e), e, e.__traceback__))[-2000:]})
     except ModuleNotFoundError:
         pass
     if bounded_res is not None:
